@@ -3,6 +3,7 @@
 -/
 import AtsProofs.Inv
 import AtsProofs.DecLemmas
+import AtsProofs.DecProgress
 namespace Ats.Proofs
 open Ats Ats.Spec
 
@@ -84,5 +85,127 @@ theorem C07_bid_only_if (env : Env) (s s' : State) (c : Call) (r : Response)
   refine ⟨hv.2, ⟨by rw [← hg, htrunc], hv.1.2⟩, ?_⟩
   unfold feeMatches at hfm
   cases fee <;> simp_all
+
+/-- C07 (asks, "if"): every request meeting the admission conditions, with the funds rule of
+    the base denomination's marker type observed, is accepted -/
+theorem C07_ask_if (env : Env) (s : State) (c : Call) (id base quote price : String) (size : Nat)
+    (hm : c.msg = .createAsk id base quote price size)
+    (hinfo : infoSane s.info = true)
+    (hc : C07_askConds env s c id base quote price size = true)
+    (hne : base ≠ "" ∧ quote ≠ "" ∧ price ≠ "")
+    (hfunds : fundsOk (env.restricted base) c.funds ⟨base, size⟩ = true) :
+    ∃ s' r, execute env s c = .ok (s', r) := by
+  unfold C07_askConds at hc
+  simp only [Bool.and_eq_true, decide_eq_true_eq, Bool.or_eq_true, beq_iff_eq, Option.isNone_iff_eq_none] at hc
+  obtain ⟨⟨⟨⟨⟨⟨⟨hid, hex⟩, hb⟩, hq⟩, hp⟩, hsz⟩, hinc⟩, hat⟩ := hc
+  obtain ⟨p, hcp, _⟩ := priceOK_checkPrice hp
+  unfold infoSane at hinfo
+  simp only [Bool.and_eq_true, decide_eq_true_eq] at hinfo
+  have hi : s.info.increment ≠ 0 := by have := hinfo.1.1.1.1.2; omega
+  have hpull : pullR env base size c.sender = .ok (pullMsgs env base size c.sender) :=
+    pullR_eq_ok.mpr ⟨fun _ => by omega, rfl⟩
+  have hattr : checkAttrs env c.sender s.info.askAttrs = .ok () := checkAttrs_ok.mpr hat
+  refine ⟨{ s with asks := s.asks.set id ⟨id, c.sender, if base != s.info.baseDenom then .pending else .basic, base, quote, price, size⟩ },
+    { msgs := pullMsgs env base size c.sender,
+      attrs := [("action", "create_ask"), ("id", id),
+                ("class", classJson (if base != s.info.baseDenom then .pending else .basic)),
+                ("target_base", s.info.baseDenom), ("base", base), ("quote", quote),
+                ("price", price), ("size", toString size)] }, ?_⟩
+  unfold execute
+  simp only [hm, ExecMsg.valid, hid]
+  unfold createAsk
+  simp [guardR, hne, hb, hfunds, hq, hi, hinc, hcp, hattr, hex, hpull, hsz]
+
+/-- C07 (bids, "if"): every request meeting the admission conditions – with the fee at the
+    configured rate, the funds rule of the quote denomination's marker type observed, and the
+    amounts within the 96-bit range of the contract's decimal arithmetic – is accepted -/
+theorem C07_bid_if (env : Env) (s : State) (c : Call) (id base : String) (fee : Option Coin)
+    (price quote : String) (qs size : Nat)
+    (hm : c.msg = .createBid id base fee price quote qs size)
+    (hinfo : infoSane s.info = true)
+    (hc : C07_bidConds env s c id base fee price quote qs size = true)
+    (hne : base ≠ "" ∧ quote ≠ "" ∧ price ≠ "")
+    (hlim : size < LIM ∧ qs < LIM)
+    (hexact : ∀ rate, bidRate s.info = some rate → exactMul rate qs = true ∧ exactFee rate qs < LIM)
+    (hfunds : fundsOk (env.restricted quote) c.funds ⟨quote, qs + feeAmt fee⟩ = true) :
+    ∃ s' r, execute env s c = .ok (s', r) := by
+  unfold C07_bidConds at hc
+  simp only [Bool.and_eq_true, decide_eq_true_eq, beq_iff_eq, Option.isNone_iff_eq_none] at hc
+  obtain ⟨⟨⟨⟨⟨⟨⟨⟨hid, hex⟩, hb⟩, hq⟩, hp⟩, hsz⟩, hinc⟩, hat⟩, harith⟩ := hc
+  obtain ⟨p, hcp, hpp⟩ := priceOK_checkPrice hp
+  obtain ⟨_, _, hpn, _⟩ := checkPrice_ok.mp hcp
+  cases hrate : bidRate s.info with
+  | none => simp [hpp, hrate] at harith
+  | some rate =>
+  simp only [hpp, hrate, Bool.and_eq_true, decide_eq_true_eq, beq_iff_eq] at harith
+  obtain ⟨⟨⟨hw, hprod⟩, hqs1⟩, hfee⟩ := harith
+  obtain ⟨hx2, hfit⟩ := hexact rate hrate
+  cases hadm : admissibleFee rate qs with
+  | none => simp [hadm] at hfee
+  | some due =>
+  simp only [hadm] at hfee
+  have hps := Dec.parse_scale hpp
+  obtain ⟨total, ht, hfr, htu⟩ := Dec.total_of_whole hps hpn hlim.1 hw (by rw [hprod]; exact hlim.2)
+  rw [hprod] at htu
+  obtain ⟨htn, hmant, htrunc⟩ := Dec.whole_repr hfr htu
+  have heqv := Dec.eqv_ofNat_of htn hmant
+  have hrs : rate.scale ≤ 28 := by
+    unfold bidRate at hrate
+    cases hbf : s.info.bidFee with
+    | none => simp [hbf] at hrate; subst hrate; simp [Dec.ofNat]
+    | some fi => simp [hbf] at hrate; exact Dec.parse_scale hrate
+  have hrf := Dec.rateFee_progress hrs hmant htn hx2 hfit hadm
+  have hfm : checkFee fee due quote = .ok () := by
+    apply checkFee_ok.mpr
+    unfold feeMatches
+    cases fee with
+    | none => simpa using hfee
+    | some f => simp at hfee; exact hfee
+  unfold infoSane at hinfo
+  simp only [Bool.and_eq_true, decide_eq_true_eq] at hinfo
+  have hi : s.info.increment ≠ 0 := by have := hinfo.1.1.1.1.2; omega
+  have hpull : pullR env quote (qs + feeAmt fee) c.sender = .ok (pullMsgs env quote (qs + feeAmt fee) c.sender) :=
+    pullR_eq_ok.mpr ⟨fun _ => by omega, rfl⟩
+  have hattr : checkAttrs env c.sender s.info.bidAttrs = .ok () := checkAttrs_ok.mpr hat
+  have hrr : bidRateR s.info = .ok rate := bidRateR_ok.mpr hrate
+  have hq128 : Dec.fromU128 qs = .ok (Dec.ofNat qs) := fromU128_ok.mpr ⟨hlim.2, rfl⟩
+  refine ⟨{ s with bids := s.bids.set id (.v3
+              { base := ⟨base, size⟩, accBase := 0, accQuote := 0, accFee := 0, fee := fee,
+                id := id, owner := c.sender, price := price, quote := ⟨quote, qs⟩ }) },
+    { msgs := pullMsgs env quote (qs + feeAmt fee) c.sender,
+      attrs := [("action", "create_bid"), ("base", base), ("id", id), ("price", price),
+                ("quote", quote), ("quote_size", toString qs), ("size", toString size)] }, ?_⟩
+  have hbne : s.info.baseDenom ≠ "" := hb ▸ hne.1
+  unfold execute
+  simp only [hm, ExecMsg.valid, hid]
+  unfold createBid
+  simp [guardR, hne, hbne, hcp, hi, hinc, ht, hfr, hq128, heqv, hrr, hrf, hfm, hq, hb, hattr, htrunc,
+    hfunds, hex, hpull, hsz, hqs1]
+
+
+/-- C07 converse, asks, in the form the runtime oracle evaluates on every refused request -/
+theorem C07_ask_must (env : Env) (s : State) (c : Call) (id base quote price : String) (size : Nat)
+    (hm : c.msg = .createAsk id base quote price size)
+    (h : C07_askMustAccept env s c id base quote price size = true) :
+    ∃ s' r, execute env s c = .ok (s', r) := by
+  unfold C07_askMustAccept at h
+  simp only [Bool.and_eq_true, bne_iff_ne, ne_eq] at h
+  obtain ⟨⟨⟨⟨⟨hi, hc⟩, h1⟩, h2⟩, h3⟩, hf⟩ := h
+  exact C07_ask_if env s c id base quote price size hm hi hc ⟨h1, h2, h3⟩ hf
+
+/-- C07 converse, bids, in the form the runtime oracle evaluates on every refused request -/
+theorem C07_bid_must (env : Env) (s : State) (c : Call) (id base : String) (fee : Option Coin)
+    (price quote : String) (qs size : Nat)
+    (hm : c.msg = .createBid id base fee price quote qs size)
+    (h : C07_bidMustAccept env s c id base fee price quote qs size = true) :
+    ∃ s' r, execute env s c = .ok (s', r) := by
+  unfold C07_bidMustAccept at h
+  simp only [Bool.and_eq_true, bne_iff_ne, ne_eq, decide_eq_true_eq] at h
+  obtain ⟨⟨⟨⟨⟨⟨⟨⟨hi, hc⟩, h1⟩, h2⟩, h3⟩, hl1⟩, hl2⟩, hfit⟩, hf⟩ := h
+  refine C07_bid_if env s c id base fee price quote qs size hm hi hc ⟨h1, h2, h3⟩ ⟨hl1, hl2⟩ ?_ hf
+  intro rate hr
+  unfold bidFeeFits at hfit
+  simp only [hr, Bool.and_eq_true, decide_eq_true_eq] at hfit
+  exact hfit
 
 end Ats.Proofs
